@@ -171,7 +171,24 @@ def run_check(pm, prop, tier, verbose):
             # no longer lines up): compensate with a deeper bounded exploration of the real code
             ntier = "deep"
             notes.append("proof undecided for " + ", ".join(f for f, _ in undecided_funcs) + ": bounded native exploration deepened (tier deep)")
-        for rep in pm.native(ntier, seed):
+        try:
+            native_out = pm.native(ntier, seed)
+        except Exception as e:  # noqa
+            # an exception that escapes from the code under test (innermost frame inside the repository) in a scenario
+            # that passes on the unchanged tree is a failure of that scenario; anything else is a checker error
+            import traceback
+            tb = traceback.extract_tb(e.__traceback__)
+            repo_root = os.path.realpath(os.environ.get("VF_REPO", "/repo"))
+            inner = tb[-1] if tb else None
+            if inner is None or not os.path.realpath(inner.filename).startswith(repo_root + os.sep):
+                raise
+            where = f"{os.path.relpath(os.path.realpath(inner.filename), repo_root)}:{inner.lineno} ({inner.name})"
+            harness = next((f"{os.path.basename(fr.filename)}:{fr.lineno} ({fr.name})" for fr in reversed(tb) if "/vf/" in fr.filename), "?")
+            native_out = [{"function": "bounded native harness (aborted)", "bounded": True, "bound": {"aborted_in": harness}, "cases": 1, "distinct_nontrivial": 1,
+                           "failures_found": 1, "wall_s": 0.0, "samples": [],
+                           "failures": [rtc.Failure("native-harness", {"raised_in": where, "harness": harness}, "exception", type(e).__name__,
+                                                    f"{type(e).__name__}: {str(e)[:200]} escaped from {where} in a scenario of the bounded harness ({harness}) that runs through on the unchanged tree")]}]
+        for rep in native_out:
             native_reports.append({k: v for k, v in rep.items() if k != "failures"})
             native_fail.extend(rep.get("failures", []))
 
